@@ -503,10 +503,20 @@ def parse_errors(stderr, linemap, gen_lines):
         line = int(ml[0][0]) if ml else 0
         fn = "?"
         lines_all = [int(x[0]) for x in ml]
-        for a, z, label in linemap:
-            if any(a <= l <= z for l in lines_all):
-                fn = label
+        # the function is the one containing the LAST span of the primary error that lies inside an
+        # extracted item: Verus points first at the violated clause (possibly a callee's) and then at
+        # the place in the body being verified
+        body_lines = [int(x[0]) for x in re.findall(r"--> [^:\n]+:(\d+):(\d+)", b.split("\nnote:")[0])]
+        for l in reversed(body_lines):
+            hit = [label for a, z, label in linemap if a <= l <= z]
+            if hit:
+                fn = hit[0]
                 break
+        if fn == "?":
+            for a, z, label in linemap:
+                if any(a <= l <= z for l in lines_all):
+                    fn = label
+                    break
         if fn == "?" and line:
             # search backwards in generated text for the enclosing fn
             for k in range(min(line, len(gen_lines)) - 1, -1, -1):
